@@ -16,6 +16,7 @@ import sys
 import time
 import traceback
 
+from . import core as _core
 from .core import (
     Counters,
     HarnessError,
@@ -70,8 +71,11 @@ def _worker_batch(prop, tier, base, indices, recheck_every):
     for idx in indices:
         seed = derive_seed(base, prop, tier, idx)
         try:
+            del _core.RAISED[:]
             sc = mod.plan(seed, tier, idx)
             r = mod.execute(sc)
+            if _core.RAISED:
+                raise _core.RAISED[0]  # raised inside the code under test and swallowed there
             if recheck_every and idx % recheck_every == 0:
                 r2 = mod.execute(sc, tape=r.tape) if r.tape is not None else mod.execute(sc)
                 agg["recheck"] += 1
@@ -253,7 +257,10 @@ def unrle(r):
 
 def _same_violation(mod, scenario, tape, clause):
     try:
+        del _core.RAISED[:]
         r = mod.execute(scenario, tape=tape) if tape is not None else mod.execute(scenario)
+        if _core.RAISED:
+            return None
     except HarnessError:
         return None
     findings = load_known_findings()
@@ -360,7 +367,10 @@ def replay(prop, path, out=sys.stdout):
     sc, tape = rp["scenario"], unrle(rp.get("schedule_tape_rle"))
     trace = bool(os.environ.get("VERIF_TRACE"))
     try:
+        del _core.RAISED[:]
         r = mod.execute(sc, tape=tape, keep_events=trace) if tape is not None else mod.execute(sc, keep_events=trace)
+        if _core.RAISED:
+            raise _core.RAISED[0]
     except HarnessError as e:
         print(f"HARNESS-ERROR replay diverged: {e}", file=out)
         return 2
